@@ -530,12 +530,91 @@ theorem ne_number_of_ne {pop : List (Ind XVal)} (h : (pop.map (·.number)).Nodup
   intro he
   exact hne (inj_on_of_nodup_map h hy hx he)
 
-/-- `_crowding_distance_sort`: a permutation, all distances good, listed in non-increasing order -/
+/-! ## the final sort by `(-distance, number)` -/
+
+@[simp] theorem xnum_eq' : xnum.eq = xeq := rfl
+@[simp] theorem xnum_lt' : xnum.lt = xlt := rfl
+@[simp] theorem xnum_neg : xnum.neg = xneg := rfl
+
+theorem xeq_eq_decide {a : XVal} (ha : NotNaN a) (b : XVal) : xeq a b = decide (a = b) := by
+  by_cases h : a = b
+  · simp [h, (xeq_iff (h ▸ ha)).2 rfl]
+  · have : xeq a b = false := by
+      by_contra hc
+      exact h ((xeq_iff ha).1 (by simpa using hc))
+    simp [h, this]
+
+/-- keys `(-d, number)` with a non-NaN first component -/
+def KeyOK (p : XVal × Nat) : Prop := NotNaN p.1
+
+theorem ltKey_asymm (p q : XVal × Nat) (hp : KeyOK p) (hq : KeyOK q) (h : ltKey xnum p q = true) :
+    ltKey xnum q p = false := by
+  unfold ltKey at h ⊢
+  simp only [xnum_eq', xnum_lt', xeq_eq_decide hp, xeq_eq_decide hq] at h ⊢
+  by_cases he : p.1 = q.1
+  · simp only [he, decide_true, if_true, decide_eq_true_eq] at h ⊢
+    simp; omega
+  · have he' : ¬ q.1 = p.1 := fun h' => he h'.symm
+    simp only [he, he', decide_false, Bool.false_eq_true, if_false] at h ⊢
+    exact xlt_asymm _ _ h
+
+theorem ltKey_negtrans (a b c : XVal × Nat) (ha : KeyOK a) (hb : KeyOK b) (hc : KeyOK c)
+    (h1 : ltKey xnum b a = false) (h2 : ltKey xnum c b = false) : ltKey xnum c a = false := by
+  unfold ltKey at h1 h2 ⊢
+  simp only [xnum_eq', xnum_lt', xeq_eq_decide ha, xeq_eq_decide hb, xeq_eq_decide hc] at h1 h2 ⊢
+  by_cases hca : c.1 = a.1
+  · simp only [hca, decide_true, if_true]
+    by_cases hba : b.1 = a.1
+    · simp only [hba, decide_true, if_true, decide_eq_false_iff_not] at h1
+      have hcb : c.1 = b.1 := hca.trans hba.symm
+      simp only [hcb, decide_true, if_true, decide_eq_false_iff_not] at h2
+      simp; omega
+    · simp only [hba, decide_false, Bool.false_eq_true, if_false] at h1
+      have hcb : ¬ c.1 = b.1 := fun h => hba (h.symm.trans hca)
+      simp only [hcb, decide_false, Bool.false_eq_true, if_false] at h2
+      rw [hca] at h2
+      exact absurd (xlt_total ha hb h2 h1).symm hba
+  · simp only [hca, decide_false, Bool.false_eq_true, if_false]
+    by_cases hba : b.1 = a.1
+    · have hcb : ¬ c.1 = b.1 := fun h => hca (h.trans hba)
+      simp only [hcb, decide_false, Bool.false_eq_true, if_false] at h2
+      rw [hba] at h2; exact h2
+    · simp only [hba, decide_false, Bool.false_eq_true, if_false] at h1
+      by_cases hcb : c.1 = b.1
+      · rw [hcb]; exact h1
+      · simp only [hcb, decide_false, Bool.false_eq_true, if_false] at h2
+        exact xlt_negtrans _ _ _ ha hb hc h1 h2
+
+/-- `a` may stand before `b` in the sorted front: its distance is not smaller, and with equal distances its number
+is not larger -/
+def Before (d : Dists XVal) (a b : Ind XVal) : Prop :=
+  xlt (lookupD xnum a.number d) (lookupD xnum b.number d) = false ∧
+    (lookupD xnum a.number d = lookupD xnum b.number d → a.number ≤ b.number)
+
+theorem before_of_ltKey (d : Dists XVal) (hd : GoodD d) (a b : Ind XVal)
+    (h : ltKey xnum (xneg (lookupD xnum b.number d), b.number) (xneg (lookupD xnum a.number d), a.number) = false) :
+    Before d a b := by
+  have ha := (hd a.number).notNaN
+  have hb := (hd b.number).notNaN
+  unfold ltKey at h
+  simp only [xnum_eq', xnum_lt', xeq_eq_decide (notNaN_xneg hb), xlt_xneg] at h
+  by_cases he : lookupD xnum a.number d = lookupD xnum b.number d
+  · have : xneg (lookupD xnum b.number d) = xneg (lookupD xnum a.number d) := by rw [he]
+    simp only [this, decide_true, if_true, decide_eq_false_iff_not] at h
+    exact ⟨by rw [he]; exact xlt_irrefl _, fun _ => by omega⟩
+  · have : ¬ xneg (lookupD xnum b.number d) = xneg (lookupD xnum a.number d) := by
+      intro h'
+      have := congrArg xneg h'
+      simp only [xneg_xneg] at this
+      exact he this.symm
+    simp only [this, decide_false, Bool.false_eq_true, if_false] at h
+    exact ⟨h, fun h' => absurd h' he⟩
+
+/-- `_crowding_distance_sort`: a permutation, all distances good, listed by (distance descending, number ascending) -/
 theorem crowdingSort_desc (pop : List (Ind XVal)) (hnn : NoNaNPop pop) :
     (crowdingSort xnum pop).Perm pop ∧
     (∀ n, Good (lookupD xnum n (calcCrowding xnum pop).2)) ∧
-    (crowdingSort xnum pop).Pairwise (fun a b =>
-      xlt (lookupD xnum a.number (calcCrowding xnum pop).2) (lookupD xnum b.number (calcCrowding xnum pop).2) = false) := by
+    (crowdingSort xnum pop).Pairwise (Before (calcCrowding xnum pop).2) := by
   have hinv : Inv pop (calcCrowding xnum pop) := by
     unfold calcCrowding
     cases pop with
@@ -543,11 +622,20 @@ theorem crowdingSort_desc (pop : List (Ind XVal)) (hnn : NoNaNPop pop) :
     | cons p0 t => exact fold_inv (p0 :: t) hnn _ _ (inv_init _)
   refine ⟨crowdingSort_perm xnum pop, hinv.2, ?_⟩
   unfold crowdingSort
-  simp only
-  rw [pairwise_reverse]
-  exact sortByKey_sorted xlt (fun x : Ind XVal => lookupD xnum x.number (calcCrowding xnum pop).2) NotNaN
-    (fun a b _ _ h => xlt_asymm a b h) (fun a b c ha hb hc h1 h2 => xlt_negtrans a b c ha hb hc h1 h2)
-    (calcCrowding xnum pop).1 (fun y _ => (hinv.2 y.number).notNaN)
+  simp only [xnum_neg]
+  have hs := sortByKey_sorted (ltKey xnum)
+    (fun x : Ind XVal => (xneg (lookupD xnum x.number (calcCrowding xnum pop).2), x.number)) KeyOK
+    (fun a b ha hb h => ltKey_asymm a b ha hb h) (fun a b c ha hb hc h1 h2 => ltKey_negtrans a b c ha hb hc h1 h2)
+    (calcCrowding xnum pop).1 (fun y _ => notNaN_xneg (hinv.2 y.number).notNaN)
+  exact hs.imp (fun {a b} h => before_of_ltKey _ hinv.2 a b h)
+
+/-- with distinct numbers `Before` is antisymmetric: the sorted front is determined by the set of its members -/
+theorem before_antisymm (d : Dists XVal) (hd : GoodD d) (a b : Ind XVal) (h1 : Before d a b) (h2 : Before d b a) :
+    a.number = b.number := by
+  have he := xlt_total (hd a.number).notNaN (hd b.number).notNaN h1.1 h2.1
+  have := h1.2 he
+  have := h2.2 he.symm
+  omega
 
 /-! ## the strict extreme of an objective gets `+inf` in that round -/
 
